@@ -277,8 +277,15 @@ func loadRulesMetadata() *config.Metadata {
 }
 
 func ConvertConfig(tmplData *configTemplateData, w io.Writer) {
+	// Removing deprecated options is an upgrade step for a config that is
+	// already in the v2 format; it writes the data back in the shape it came in.
+	// A v1 file (which never has General.ConfigurationVersion) must always go
+	// through the template, even when it contains a key whose v2 counterpart
+	// has since been deprecated (such as InMemCollector.CacheCapacity).
 	var removedItems []string
-	tmplData.Data, removedItems = removeDeprecated(tmplData.Data)
+	if _, isV2 := _fetch(tmplData.Data, "General.ConfigurationVersion"); isV2 {
+		tmplData.Data, removedItems = removeDeprecated(tmplData.Data)
+	}
 
 	if len(removedItems) > 0 {
 		fmt.Fprintf(w, "# The following deprecated config options were removed:\n")
